@@ -83,7 +83,7 @@ def build(race=False):
 STATS_RE = re.compile(r"(\d+) states generated, (\d+) distinct states found, (\d+) states left")
 
 
-def tlc(run, module, cfg_text, name, workers=None, timeout=900, extra=(), simulate=None, depth=None):
+def tlc(run, module, cfg_text, name, workers=None, timeout=900, extra=(), simulate=None, depth=None, stream=False):
     """Run TLC on module with the given cfg text. Returns (stdout, stats dict)."""
     cfg = run.path(name + ".cfg")
     with open(cfg, "w") as f:
@@ -101,16 +101,42 @@ def tlc(run, module, cfg_text, name, workers=None, timeout=900, extra=(), simula
         p = subprocess.run(cmd, cwd=run.dir, stdout=fo, stderr=subprocess.STDOUT)
     wall = time.time() - t0
     shutil.rmtree(meta, ignore_errors=True)
-    out = open(outp, errors="replace").read()
     st = {"module": module, "name": name, "wall_s": round(wall, 2), "rc": p.returncode}
-    m = None
-    for m in STATS_RE.finditer(out):
-        pass
-    if m:
-        st["generated"], st["distinct"] = int(m.group(1)), int(m.group(2))
+    if stream:
+        # generator runs print one line per scenario (gigabytes in the thorough tier): never held in memory
+        out, keep = [], 0
+        with open(outp, errors="replace") as f:
+            for line in f:
+                if line.startswith('<<"SCN"'):
+                    continue
+                m = STATS_RE.search(line)
+                if m:
+                    st["generated"], st["distinct"] = int(m.group(1)), int(m.group(2))
+                if len(out) < 4000 or line.startswith("Error:") or "Exception" in line or "violated" in line or keep > 0:
+                    keep = 30 if (line.startswith("Error:") or "Exception" in line) else max(0, keep - 1)
+                    out.append(line)
+        out = "".join(out)
+    else:
+        out = open(outp, errors="replace").read()
+        m = None
+        for m in STATS_RE.finditer(out):
+            pass
+        if m:
+            st["generated"], st["distinct"] = int(m.group(1)), int(m.group(2))
     if p.returncode == 124:
         raise Infra("TLC timeout on %s (%ds)" % (name, timeout))
     return out, st
+
+
+class _Rev:
+    """max-heap entry (heapq is a min-heap): the largest key is evicted first."""
+    __slots__ = ("key",)
+
+    def __init__(self, key):
+        self.key = key
+
+    def __lt__(self, other):
+        return self.key > other.key
 
 
 def tlc_errors(out):
@@ -176,7 +202,7 @@ def generate(run, module, cfg_text, name, fam=None, workers=None, timeout=900, c
         cfg_text = cfg_text.replace("INIT Init\nNEXT Next\n", "INIT PInit\nNEXT PNext\n").replace(
             "INVARIANTS " + m.group(2), "INVARIANTS " + " ".join("P_" + i for i in invs))
         module = wname
-    out, st = tlc(run, module, cfg_text, name, workers=workers, timeout=timeout, simulate=simulate, depth=depth)
+    out, st = tlc(run, module, cfg_text, name, workers=workers, timeout=timeout, simulate=simulate, depth=depth, stream=True)
     if staged and "distinct" in st:
         st["distinct"] //= 2        # every scenario is one stage-0 and one stage-1 state
         st["generated"] //= 2
@@ -186,21 +212,38 @@ def generate(run, module, cfg_text, name, fam=None, workers=None, timeout=900, c
     if "is violated" in out:
         # a model-level law failed on an enumerated scenario: specification error
         raise Infra("generator invariant violated in %s (specification error):\n%s" % (name, err or out[-3000:]))
-    scs = parse_printed(out, "SCN")
-    # de-duplicate (simulation repeats) and cap deterministically
-    seen, uniq = set(), []
-    for s in scs:
-        k = json.dumps(s, sort_keys=True)
-        if k in seen:
-            continue
-        seen.add(k)
-        uniq.append(s)
-    uniq.sort(key=lambda s: hashlib.md5((json.dumps(s, sort_keys=True) + str(run.seed)).encode()).hexdigest())
+    # de-duplicate (simulation repeats) and cap deterministically: the `cap` scenarios with the smallest
+    # md5(scenario + seed), selected while streaming over TLC's output
+    import heapq
+    pre = '<<"SCN", '
+    seen, heap, emitted = set(), [], 0
+    with open(run.path(name + ".out"), errors="replace") as f:
+        for line in f:
+            if not line.startswith(pre):
+                continue
+            line = line.rstrip("\n")
+            if not line.endswith(">>"):
+                raise Infra("truncated TLC output line: %s" % line[:200])
+            emitted += 1
+            try:
+                sc = json.loads(json.loads(line[len(pre):-2]))
+            except Exception as e:  # noqa
+                raise Infra("cannot parse TLC output line: %s (%s)" % (line[:200], e))
+            k = json.dumps(sc, sort_keys=True)
+            dk = hashlib.md5(k.encode()).digest()
+            if dk in seen:
+                continue
+            seen.add(dk)
+            key = hashlib.md5((k + str(run.seed)).encode()).hexdigest()
+            if cap and len(heap) >= cap:
+                if key < heap[0][0].key:
+                    heapq.heapreplace(heap, (_Rev(key), k))
+            else:
+                heapq.heappush(heap, (_Rev(key), k))
+    uniq = [json.loads(k) for (_, k) in sorted(heap, key=lambda x: x[0].key)]
     st["enumerated"] = st.get("distinct", 0)
-    st["emitted"] = len(scs)
-    st["distinct_emitted"] = len(uniq)
-    if cap and len(uniq) > cap:
-        uniq = uniq[:cap]
+    st["emitted"] = emitted
+    st["distinct_emitted"] = len(seen)
     st["used"] = len(uniq)
     for i, s in enumerate(uniq):
         s["id"] = "%s-%s-%05d" % (fam or s.get("fam", "X"), name, i)
